@@ -48,11 +48,28 @@ def pyccolo_cache_from_source(path, debug_override=None, *, optimization=None):
 
 
 def pyccolo_source_from_cache(path):
+    # <module>.<signature>.<tag>.pyc, or <module>.<signature>.<tag>.opt-<level>.pyc under -O
+    # (self-contained: this code runs with the globals of importlib's own function)
     parts = path.split(".")
-    if len(parts) >= 3 and parts[-3].startswith("pyccolo"):
-        return orig_source_from_cache(".".join(parts[:-3] + parts[-2:]))
+    idx = -4 if len(parts) >= 4 and parts[-2].startswith("opt-") else -3
+    if (
+        len(parts) >= -idx
+        and parts[idx].startswith("pyccolo")
+        and "/" not in parts[idx]
+        and "\\" not in parts[idx]
+    ):
+        return orig_source_from_cache(".".join(parts[:idx] + parts[idx + 1 :]))
     else:
         return orig_source_from_cache(path)
+
+
+def _cache_signature_of(path: str) -> Optional[str]:
+    """the pyccolo signature component in the name of a bytecode file, if it has one"""
+    parts = os.path.basename(path).split(os.path.extsep)
+    idx = -4 if len(parts) >= 4 and parts[-2].startswith("opt-") else -3
+    if len(parts) >= -idx and parts[idx].startswith("pyccolo"):
+        return parts[idx]
+    return None
 
 
 class TraceLoader(SourceFileLoader):
@@ -143,12 +160,12 @@ class TraceLoader(SourceFileLoader):
             bytecode_caching_allowed = all(
                 tracer.bytecode_caching_allowed for tracer in self._tracers
             )
-            parts = path.split(sep)
+            parts = os.path.basename(path).split(sep)
             if bytecode_caching_allowed and len(parts) < 3:
                 return super().get_data(path)
             source_path = pyccolo_source_from_cache(path)
             if bytecode_caching_allowed and self.make_cache_signature(source_path) in (
-                parts[-3],
+                _cache_signature_of(path),
                 "pyccolo",
             ):
                 return super().get_data(path)
